@@ -38,8 +38,11 @@ def run(tier, seed):
         wdm = os.path.join(wd, mode); os.makedirs(wdm)
         for k, rc, so, ls in vlib.record(bins, plan, wdm, seed):
             rep.traces += 1
-            if rc != 0 or not ls:
-                raise vlib.ModelError("recorder %s (%s) exited with %d and %d events: %s" % (k, mode, rc, len(ls), so[-500:]))
+            if rc != 0:
+                rep.violations.append(("recorder %s (%s) aborted with %d after %d events: %s" % (k, mode, rc, len(ls), so[-300:].replace("\n", " ")), json.dumps({"e": "crash", "key": k, "mode": mode})))
+                ls = [l for l in ls if l.endswith("}")]
+            elif not ls:
+                raise vlib.ModelError("recorder %s (%s) logged no events: %s" % (k, mode, so[-500:]))
             if any('"e":"terminate"' in x for x in ls[-1:]):
                 raise vlib.ModelError("recorder %s (%s) terminated abnormally" % (k, mode))
             bad = [x for x in ls if '"mode":"%s"' % mode not in x]
